@@ -314,3 +314,8 @@ func readJSON(path string, v any) error {
 	}
 	return json.Unmarshal(b, v)
 }
+
+func jsonMarshal(v any) (string, error) {
+	b, err := json.Marshal(v)
+	return string(b), err
+}
